@@ -233,3 +233,17 @@ PROPS["C11"] = dict(
     replay_attempts=300,
     gomaxprocs1=True,
 )
+
+PROPS["C18"] = dict(
+    level="model_checking",
+    technique="bounded symbolic execution of go/ssa (gosmt) with modelled goroutines, channels, select, RWMutex (writer preference) and timers: schedules and select choices are path decisions; deadlock = watchdog timer that can only fire when every goroutine is blocked (no solver variables: verdict by exhaustive path enumeration)",
+    explanation="real Allocator.run/watch/unwatch/addNodeToPartitions/removeNodeFromPartitions and cluster.Conn.AddNode/RemoveNode/NodeChangesNotifications driven by a catalogue goroutine and a membership goroutine; afterwards one more catalogue change must go through",
+    runs={
+        "quick": [dict(pkg="./storage", entry="VerifC18", bounds="preempt=1", reach=["drivers-returned", "end"])],
+        "thorough": [dict(pkg="./storage", entry="VerifC18", bounds="preempt=3", reach=["drivers-returned", "end"])],
+    },
+    outside="partitions assigned to the local node (loadRaft/unloadRaft/proposeAddNode/proposeRemoveNode are not exercised: the watched partitions live elsewhere), i.e. the interaction of the allocator with the catalogue's own raft proposals; more than 2 membership and 3 catalogue events; more than 10 queued notifications",
+    assumptions=COMMON_ASSUME + ["sync.RWMutex is modelled with Go's writer preference (a pending Lock blocks new RLocks)"],
+    replay_attempts=200,
+    gomaxprocs1=True,
+)
